@@ -317,10 +317,12 @@ package tax
 //@ func RegimeDefFor(country) (r)
 //@   trusted A-REGISTRY: read-only lookup in the regime register; registered definitions have no nil category or rate entries
 //@   pure
+//@   function
 //@   ensures r != nil ==> regimeCatsOK(r)
 //@ func RegimeDefFromContext(ctx) (r)
 //@   trusted A-REGISTRY: reads the regime stored in the context; registered definitions have no nil category or rate entries
 //@   pure
+//@   function
 //@   ensures r != nil ==> regimeCatsOK(r)
 //
 //@ func (r *RegimeDef) InCategories() (rule)
